@@ -445,6 +445,18 @@ func (c *Ctx) plySpecGen() plySpec {
 		c.Note("props:permuted")
 	}
 	nv := []int{0, 1, 2, 3, 3, 4, 5, 8, 17}[c.Rng.Intn(9)]
+	// "as many vertices as fan corners, textured, index lists not 0..n-1": a reader that takes such a file for already
+	// unwelded puts the per-corner texture coordinates on the wrong corners
+	var cornerShapes []int
+	if len(s.vprops) > 0 && c.Rng.Intn(6) == 0 {
+		nv = 0
+		for i := 1 + c.Rng.Intn(3); i > 0; i-- {
+			k := 3 + c.Rng.Intn(2)
+			cornerShapes = append(cornerShapes, k)
+			nv += 3 * (k - 2)
+		}
+		c.Note("file:vertex-count=corner-count+texcoord")
+	}
 	if len(s.vprops) == 0 {
 		nv = 0
 	}
@@ -455,7 +467,7 @@ func (c *Ctx) plySpecGen() plySpec {
 		}
 		s.verts = append(s.verts, r)
 	}
-	if nv > 0 && c.Rng.Intn(3) != 0 {
+	if nv > 0 && (cornerShapes != nil || c.Rng.Intn(3) != 0) {
 		fe := &plySpecFaceElem{short: c.Rng.Intn(2) == 0, cntTy: []string{"uchar", "uchar", "int", "uint"}[c.Rng.Intn(4)],
 			idxTy: []string{"int", "uint"}[c.Rng.Intn(2)], idxAlias: c.Rng.Intn(3) == 0, hasTex: c.Rng.Intn(3) == 0,
 			texCnt: []string{"uchar", "int", "uint"}[c.Rng.Intn(3)], texItem: "float", texFirst: c.Rng.Intn(2) == 0}
@@ -467,15 +479,30 @@ func (c *Ctx) plySpecGen() plySpec {
 			nf = 0 // `element face 0`: the vertices are kept
 			c.Note("face:none-declared-zero")
 		}
+		var perm []int
+		if cornerShapes != nil {
+			fe.hasTex = true
+			nf = len(cornerShapes)
+			perm = c.Rng.Perm(nv)
+		}
+		uvTag := 0
 		for i := 0; i < nf; i++ {
 			k := 3 + c.Rng.Intn(2)
+			if cornerShapes != nil {
+				k = cornerShapes[i]
+			}
 			fc := plySpecFace{}
 			for j := 0; j < k; j++ {
-				fc.verts = append(fc.verts, c.Rng.Intn(nv))
+				if perm != nil && c.Rng.Intn(4) != 0 {
+					fc.verts = append(fc.verts, perm[(i*4+j)%nv]) // mostly distinct vertices, in another order
+				} else {
+					fc.verts = append(fc.verts, c.Rng.Intn(nv))
+				}
 			}
 			if fe.hasTex {
 				for j := 0; j < 2*k; j++ {
-					fc.uv = append(fc.uv, float64(c.Rng.Intn(65))/64)
+					uvTag++ // distinct per corner: a texture coordinate on the wrong corner is visible
+					fc.uv = append(fc.uv, float64(uvTag)/64+float64(c.Rng.Intn(4)))
 				}
 			}
 			if fe.extra != 0 {
@@ -502,7 +529,9 @@ func (c *Ctx) plySpecGen() plySpec {
 	return s
 }
 
-func (c *Ctx) plySpecCase(s plySpec, holdsOp string) {
+func (c *Ctx) plySpecCase(s plySpec, holdsOp string) { c.plySpecCaseEP(s, holdsOp, true) }
+
+func (c *Ctx) plySpecCaseEP(s plySpec, holdsOp string, fullEntries bool) {
 	data := plyRefEncode(s)
 	st := plySpecTok(s)
 	c.Emit("c08.encode", st, plyHx(data))
@@ -510,6 +539,71 @@ func (c *Ctx) plySpecCase(s plySpec, holdsOp string) {
 	rs, _ := plyImplReadMesh(data)
 	c.Emit("c08.read", plyHx(data), rs)
 	c.Emit(holdsOp, st+" "+rs, "true")
+	// the file loads to the same mesh through every public entry point and reader type
+	c.Emit("c08.holds.entrypoints_agree", rs+" | "+plyEntryResults(data, fullEntries), "true")
+	c.Emit("c08.holds.header_entrypoints_agree", plyHeaderEntryResults(data), "true")
+}
+
+// a large file with values tagged by the vertex number, so that a displaced, repeated or dropped record is visible:
+// sizes cross internal batch / buffer boundaries (4096 records, 4096 and 65536 bytes)
+func (c *Ctx) plySpecLarge(format string, nv, nf int) plySpec {
+	s := plySpec{format: format, crlf: c.Rng.Intn(2) == 0, pre: []plyHItem{{false, "large file"}}}
+	s.vprops = []plySpecProp{{"x", "float", false}, {"y", "float", false}, {"z", "float", false}, {"tag", "int", c.Rng.Intn(2) == 0}}
+	if c.Rng.Intn(2) == 0 {
+		s.vprops = append(s.vprops, plySpecProp{"red", "uchar", false}, plySpecProp{"green", "uchar", false}, plySpecProp{"blue", "uchar", false})
+	}
+	if c.Rng.Intn(2) == 0 {
+		s.vprops = append(s.vprops, plySpecProp{"w", "double", false})
+	}
+	c.Rng.Shuffle(len(s.vprops), func(i, j int) { s.vprops[i], s.vprops[j] = s.vprops[j], s.vprops[i] })
+	for i := 0; i < nv; i++ {
+		r := make([]float64, len(s.vprops))
+		for k, p := range s.vprops {
+			switch p.name {
+			case "x":
+				r[k] = float64(i)
+			case "y":
+				r[k] = float64(i) / 8
+			case "z":
+				r[k] = -float64(i) - 0.5
+			case "tag":
+				r[k] = float64(i + 1)
+			case "red":
+				r[k] = float64(i % 256)
+			case "green":
+				r[k] = float64((i / 256) % 256)
+			case "blue":
+				r[k] = float64((i * 7) % 256)
+			default:
+				r[k] = float64(i)*0.25 + 1
+			}
+		}
+		s.verts = append(s.verts, r)
+	}
+	if nf > 0 {
+		fe := &plySpecFaceElem{short: c.Rng.Intn(2) == 0, cntTy: []string{"uchar", "int", "uint"}[c.Rng.Intn(3)],
+			idxTy: []string{"int", "uint"}[c.Rng.Intn(2)], hasTex: c.Rng.Intn(3) == 0, texCnt: []string{"uchar", "int"}[c.Rng.Intn(2)],
+			texItem: "float", texFirst: c.Rng.Intn(2) == 0}
+		if format == "be" {
+			fe.cntTy = []string{"int", "uint"}[c.Rng.Intn(2)] // big-endian 4-byte list counts
+		}
+		for i := 0; i < nf; i++ {
+			k := 3 + c.Rng.Intn(2)
+			fc := plySpecFace{}
+			for j := 0; j < k; j++ {
+				fc.verts = append(fc.verts, c.Rng.Intn(nv))
+			}
+			if fe.hasTex {
+				for j := 0; j < 2*k; j++ {
+					fc.uv = append(fc.uv, float64((i*8+j)%4096)/64)
+				}
+			}
+			fe.faces = append(fe.faces, fc)
+		}
+		s.face = fe
+	}
+	c.Note(fmt.Sprintf("large:%s:nv=%d:nf=%d", format, nv, nf))
+	return s
 }
 
 func runC08(c *Ctx) {
@@ -523,8 +617,26 @@ func runC08(c *Ctx) {
 		verts: [][]float64{{1, 2, 3, 16777217, 16777217.5}}}, "c08.holds.ascii_precision_witness")
 	c.plySpecCase(plySpec{format: "le", vprops: xyz, verts: [][]float64{{1, 2, 3}, {4, 5, 6}},
 		face: &plySpecFaceElem{cntTy: "uchar", idxTy: "int"}}, "c08.holds.meaning") // corpus case: `element face 0` (fixed by b4c6223)
+	defer plyTmpCleanup()
+	// sizes that cross plausible internal boundaries (4096-record batches, 4096 / 65536-byte buffers)
+	type large struct {
+		format string
+		nv, nf int
+	}
+	larges := []large{{"le", 4097, 0}, {"be", 5000, 1500}, {"ascii", 4200, 900}, {"le", 8193, 2500}}
+	if c.Tier == "thorough" {
+		for _, f := range []string{"ascii", "le", "be"} {
+			for _, nv := range []int{4095, 4096, 4097, 5000, 8193, 10001} {
+				larges = append(larges, large{f, nv, []int{0, 1200, 3000}[c.Rng.Intn(3)]})
+			}
+		}
+		larges = append(larges, large{"le", 70000, 0}, large{"be", 20000, 12000})
+	}
+	for _, l := range larges {
+		c.plySpecCaseEP(c.plySpecLarge(l.format, l.nv, l.nf), "c08.holds.meaning", false)
+	}
 	for k := 0; k < c.N; k++ {
-		c.plySpecCase(c.plySpecGen(), "c08.holds.meaning")
+		c.plySpecCaseEP(c.plySpecGen(), "c08.holds.meaning", k%4 == 0)
 	}
 	// header parser, error and glue branches (model vs ply.ReadHeader / ply.ReadMesh): fixed variants …
 	for _, h := range plyHeaderVariants {
